@@ -473,3 +473,52 @@ void h_keyunwrap(void)
 	if (code == ERR_OK) { same = 1; for (j = 0; j < KLEN; ++j) same &= key[j] == E.d2_out1[j]; V_ASSERT(same, "the key returned is the unprotected key"); }
 	V_CANARY("flow keyunwrap");
 }
+
+/* ---- bignIdVerify: R (identity public key) must be on the curve; t = belt-hash(oid || <R> || H0) on a copy of the hash state;
+   V = (s1 + H) G + (s0 + 2^l) R - ((s0 + 2^l)(t + 2^l) mod q) Q; accepted iff s0 == belt-hash(oid || <V> || H0 || H) */
+void h_idverify(void)
+{
+	PROLOGUE;
+	V_IN_ARR(octet, id_hash, NO); V_IN_ARR(octet, sig, NO + NO / 2); V_IN_ARR(octet, id_pubkey, 2 * NO); V_IN_ARR(octet, pubkey, 2 * NO);
+	word s1[NW], H[NW], s0[NW / 2 + 1], t[NW / 2], tt[NW + 1]; err_t code; int fav; size_t j; word cy;
+	code = bignIdVerify(&params, oid, oid_len, id_hash, hash, sig, id_pubkey, pubkey);
+	STATE_RULES(code);
+	ld(s1, sig + NO / 2, NO); ld(H, hash, NO); ld(s0, sig, NO / 2); s0[NW / 2] = 1;
+	fav = operable && E.noid == 1 && E.oid_ret != SIZE_MAX && E.created && E.start_ret == 1 &&
+		E.nfrom == 4 && E.from_ret[0] && E.from_ret[1] && E.from_ret[2] && E.from_ret[3] && E.nison == 1 && E.ison_ret &&
+		r_cmp(s1, q, NW) < 0 && E.naddmul == 1 && E.am_ret && E.nh == 9 && E.h_ret;
+	V_ASSERT(code == ERR_OK ? fav : 1, "bignIdVerify accepts only if every check passed (identity key on the curve, keys in range, s1 < q, final comparison)");
+	V_ASSERT(code != ERR_OK ? !fav : 1, "bignIdVerify accepts whenever every check passed");
+	if (E.nison) V_ASSERT(E.ison_nfrom == 2 && E.from_src[0] == id_pubkey && E.from_src[1] == id_pubkey + NO &&
+		eqw(E.ison_val, E.from_val[0], NW) && eqw(E.ison_val + NW, E.from_val[1], NW), "the curve equation is checked on the imported identity public key before anything else uses it");
+	if (code == ERR_OK)
+	{
+		V_ASSERT(E.from_src[2] == pubkey && E.from_src[3] == pubkey + NO, "public key of the trusted party imported from pubkey, pubkey + no");
+		redq(H, q);
+		V_ASSERT(E.nam == 1 && E.am_kind[0] == 1 && E.amod_mod[0] == E.order && eqw(E.amod_a[0], s1, NW) && eqw(E.amod_b[0], H, NW), "(s1 + H) mod q");
+		/* t */
+		V_ASSERT(E.h_kind[0] == H_START && E.h_kind[1] == H_STEPH && E.h_ptr[1] == (const void*)oid && E.h_len[1] == oid_len && E.h_state[1] == E.h_state[0], "hash state: oid first");
+		V_ASSERT(E.h_kind[2] == H_STEPH && E.h_ptr[2] == (const void*)id_pubkey && E.h_len[2] == NO && E.h_state[2] != E.h_state[0] && E.h_id[2] == E.h_id[0] && E.h_cnt[2] == 2 &&
+			E.h_kind[3] == H_STEPH && E.h_ptr[3] == (const void*)id_hash && E.h_len[3] == NO && E.h_state[3] == E.h_state[2] && E.h_cnt[3] == 3 &&
+			E.h_kind[4] == H_G2 && E.h_state[4] == E.h_state[2] && E.h_len[4] == NO / 2 && E.h_cnt[4] == 4, "t = belt-hash(oid || <R>_2l || H0) on a copy of the state taken after oid");
+		/* (s0 + 2^l)(t + 2^l) = s0 t + (s0 + t) 2^l + 2^2l */
+		ld(t, E.h_out4, NO / 2);
+		V_ASSERT(E.nzmul == 1 && E.zmul_n == NW / 2 && E.zmul_m == NW / 2 && eqw(E.zmul_a, t, NW / 2) && eqw(E.zmul_b, s0, NW / 2), "t * s0");
+		for (j = 0; j < NW + 1; ++j) tt[j] = j < NW ? E.zmul_out[j] : 0;
+		cy = r_add(tt + NW / 2, tt + NW / 2, t, NW / 2, 0); tt[NW] += cy;
+		cy = r_add(tt + NW / 2, tt + NW / 2, s0, NW / 2, 0); tt[NW] += cy;
+		++tt[NW];
+		V_ASSERT(E.nzmod == 1 && E.zmod_n == NW + 1 && E.zmod_mod == E.order && eqw(E.zmod_a, tt, NW + 1), "(s0 + 2^l)(t + 2^l) reduced modulo q");
+		V_ASSERT(E.nneg == 1 && E.neg_mod == E.order && eqw(E.neg_in, E.zmod_out, NW), "negated modulo q");
+		V_ASSERT(E.am_k == 3 && E.am_ec == (const void*)E.ec && E.am_pt[0] == E.base && eqw(E.am_ptval[0], E.base_val, 2 * NW) && E.am_m[0] == NW && eqw(E.am_d[0], E.amod_out[0], NW), "first term: ((s1 + H) mod q) G");
+		V_ASSERT(eqw(E.am_ptval[1], E.from_val[0], NW) && eqw(E.am_ptval[1] + NW, E.from_val[1], NW) && E.am_m[1] == NW / 2 + 1 && eqw(E.am_d[1], s0, NW / 2 + 1), "second term: (s0 + 2^l) R");
+		V_ASSERT(eqw(E.am_ptval[2], E.from_val[2], NW) && eqw(E.am_ptval[2] + NW, E.from_val[3], NW) && E.am_m[2] == NW && eqw(E.am_d[2], E.neg_out, NW), "third term: -((s0 + 2^l)(t + 2^l) mod q) Q");
+		V_ASSERT(E.nto == 1 && eqw(E.to_in[0], E.am_out, NW), "the x-coordinate of V is exported");
+		V_ASSERT(E.h_kind[5] == H_STEPH && E.h_state[5] == E.h_state[0] && E.h_cnt[5] == 2 && E.h_len[5] == NO && eqo(E.h_val[5], E.to_val[0], NO) &&
+			E.h_kind[6] == H_STEPH && E.h_state[6] == E.h_state[0] && E.h_ptr[6] == (const void*)id_hash && E.h_len[6] == NO &&
+			E.h_kind[7] == H_STEPH && E.h_state[7] == E.h_state[0] && E.h_ptr[7] == (const void*)hash && E.h_len[7] == NO &&
+			E.h_kind[8] == H_V2 && E.h_state[8] == E.h_state[0] && E.h_ptr[8] == (const void*)sig && E.h_len[8] == NO / 2,
+			"belt-hash transcript on the original state: oid || <V> || H0 || H, compared with s0");
+	}
+	V_CANARY("flow idverify");
+}
